@@ -200,4 +200,11 @@ def run(ctx):
                       "None is returned with an en-passant file present on a path that did not exhaust the candidate loop", loc(eb))
     for k, n in seen.items():
         ctx.floor("effective_ep paths of kind %s" % k, n, 1)
-    ctx.assumptions.append("is_legal decides legality of the tested capture (C04)")
+    # "allow a legal en-passant capture" is decided through is_legal: its agreement with move generation (owned by
+    # C04) is a prerequisite of this property and is re-run here
+    from . import c04
+    ctx.rule("is_legal.reference-function")
+    c04.check_is_legal(ctx, f, L)
+    ctx.rule("king_is_legal.reference-function")
+    c04.check_king_is_legal(ctx, f, L)
+    ctx.assumptions.append("the pawn generator is_legal delegates to is the audited one (C01/C04 batch specification)")
